@@ -52,6 +52,7 @@ def explore_step_run(ix, quiet, capture, with_scenario, hooks_may_raise_base=Fal
     w = World(ix)
     mons = MonitorSet([capture_monitor(), formatter_seq_recorder(w.n_formatters), _hook_recorder()])
     it = Interp(ix, stubs=w.stubs, on_event=mons, name="Step.run")
+    it.allow_guess = True        # paths through an unknown are reported as imprecise (exit 2) by the rules built on this exploration
     st = w.new_state()
     mons.init(st)
     runner = w.make_runner(st)
@@ -319,6 +320,7 @@ def explore_scenario_run(ix, symbols=None, cls="behave.model:Scenario", mutate=N
     stubs["NameReStub.search"] = name_search
     attr_stubs = {"RunnerStub.aborted": lambda it, st, base, node: w.read_aborted(it, st, node)}
     it = Interp(ix, stubs=stubs, on_event=mons, name="Scenario.run", on_return=on_return, attr_stubs=attr_stubs)
+    it.allow_guess = True        # paths through an unknown are reported as imprecise (exit 2) by the rules built on this exploration
     it.same_seq_same_length = True
 
     st = w.new_state()
@@ -602,6 +604,7 @@ def explore_container_run(ix, cls, thorough=False, mutate=None):
         mons(st, ev)
     attr_stubs = {"RunnerStub.aborted": lambda it, st, base, node: w.read_aborted(it, st, node)}
     it = Interp(ix, stubs=stubs, on_event=on_event, name=ci.name + ".run", on_return=on_return, attr_stubs=attr_stubs)
+    it.allow_guess = True        # paths through an unknown are reported as imprecise (exit 2) by the rules built on this exploration
     st = w.new_state()
     mons.init(st)
     cfg = w.make_config(st)
@@ -701,6 +704,7 @@ def explore_outline_run(ix, thorough=False, mutate=None):
     seq = AbsSeq("scenarios", child_factory)
     attr_stubs["ScenarioOutline.scenarios"] = lambda it, s, base, node: [(s, "val", seq)]
     it = Interp(ix, stubs=stubs, on_event=mons, name="ScenarioOutline.run", attr_stubs=attr_stubs)
+    it.allow_guess = True        # paths through an unknown are reported as imprecise (exit 2) by the rules built on this exploration
     ci = ix.cls("behave.model:ScenarioOutline")
     me = st.alloc(HObj(ci, {"_cached_status": Top("cached0", True), "should_skip": False,
                             "hook_failed": False, "name": Top("name", True)}, label="outline"))
@@ -853,6 +857,7 @@ def explore_run_model(ix, thorough=False, mutate=None):
     stubs["ModelRunner.setup_capture"] = lambda it, st, a, k, n: (it.emit(st, ("setup_capture",)), [(st, "val", None)])[1]
     attr_stubs = {"ContextStub.aborted": lambda it, st, base, node: w.read_aborted(it, st, node)}
     it = Interp(ix, stubs=stubs, on_event=mons, name="ModelRunner.run_model", attr_stubs=attr_stubs)
+    it.allow_guess = True        # paths through an unknown are reported as imprecise (exit 2) by the rules built on this exploration
     st = w.new_state()
     mons.init(st)
     cfg = w.make_config(st)
@@ -951,6 +956,7 @@ def explore_run_hook(ix, name, layers, mutate=None):
         return [(st, "val", user_hook)]
     stubs["HooksStub.__getitem__"] = hooks_getitem
     it = Interp(ix, stubs=stubs, on_event=mons, name="ModelRunner.run_hook")
+    it.allow_guess = True        # paths through an unknown are reported as imprecise (exit 2) by the rules built on this exploration
     st = w.new_state()
     mons.init(st)
     cfg = w.make_config(st)
